@@ -155,6 +155,34 @@ def Pred.tr (km : KindMap) : Pred → Option Sql.Expr
   | .not p => do let a ← Pred.tr km p; pure (.un "not" a)
   | .paren p => do let a ← Pred.tr km p; pure (.paren a)
 
+/-- the same lowering with the entity under the table alias `t`; for a relationship (`edge`) a kind predicate is `t.kind_id = any (array […])`.
+`Pred.tr km = Pred.trAt km "n0" false` (proved: `trAt_n0`) -/
+def Pred.trAt (km : KindMap) (t : String) (edge : Bool) : Pred → Option Sql.Expr
+  | .propEqStr k s =>
+    some (.paren (.bin "and"
+      (.bin "=" (.call "jsonb_typeof" [.bin "->" (.compound [t, "properties"]) (strLit k)] false false "") (strLit "string"))
+      (.bin "=" (.bin "->>" (.compound [t, "properties"]) (strLit k)) (strLit s))))
+  | .propEqInt neg k i =>
+    some (.bin (if neg then "<>" else "=") (.cast (.bin "->" (.compound [t, "properties"]) (strLit k)) "jsonb")
+      (.call "to_jsonb" [.cast (intLit i) "int8"] false false "jsonb"))
+  | .propIsNull k =>
+    some (.paren (.bin "or" (.un "not" (.bin "?" (.compound [t, "properties"]) (strLit k)))
+      (.bin "=" (.bin "->" (.compound [t, "properties"]) (strLit k)) jsonNull)))
+  | .propNotNull k =>
+    some (.paren (.bin "and" (.bin "?" (.compound [t, "properties"]) (strLit k))
+      (.un "not" (.bin "=" (.bin "->" (.compound [t, "properties"]) (strLit k)) jsonNull))))
+  | .idCmp op i => some (.bin op.sql (.compound [t, "id"]) (intLit i))
+  | .kinds ks =>
+    match ks.mapM km.id? with
+    | some ids =>
+      if edge then some (.bin "=" (.compound [t, "kind_id"]) (.anyOf (.lit (.ints (ids.map Int.ofNat)) "int2[]")))
+      else some (.bin "operator (pg_catalog.@>)" (.compound [t, "kind_ids"]) (.lit (.ints (ids.map Int.ofNat)) "int2[]"))
+    | none => none
+  | .and p q => do let a ← Pred.trAt km t edge p; let b ← Pred.trAt km t edge q; pure (.bin "and" a b)
+  | .or p q => do let a ← Pred.trAt km t edge p; let b ← Pred.trAt km t edge q; pure (.bin "or" a b)
+  | .not p => do let a ← Pred.trAt km t edge p; pure (.un "not" a)
+  | .paren p => do let a ← Pred.trAt km t edge p; pure (.paren a)
+
 def Item.tr (v : String) : Item → Sql.Expr
   | .node a => .aliased (.compound ["s0", "n0"]) (some (a.getD v))
   | .prop k none => .bin "->" (outerCol "properties") (strLit k)
